@@ -176,7 +176,9 @@ Handle(s0, m, t) ==
       [] m.ctl = "ContinueTryGracefulRestart" ->
             LET sa == IF "restart_once" \in Fixes
                       THEN [s EXCEPT !.onEndRestart = NoFlag] ELSE s
-                sb == [sa EXCEPT !.credit = @ - 1]
+                \* sent from outside through Job::control() it is a restart of its own, not the
+                \* continuation of a graceful one
+                sb == IF m.tag = 1 THEN sa ELSE [sa EXCEPT !.credit = @ - 1]
             IN  IF sb.cs = "running"
                 THEN LET r == KillReap(sb, t) IN
                      IF r.ok
